@@ -28,6 +28,7 @@ package cache
 
 import (
 	"bytes"
+	"errors"
 	"sync"
 	"time"
 
@@ -54,6 +55,9 @@ const (
 
 // defaultHitForPassSeconds default hit for pass: 300 seconds
 const defaultHitForPassSeconds = 300
+
+// errInvalidStoreData the data of store is invalid
+var errInvalidStoreData = errors.New("invalid store data")
 
 type (
 	// httpCache http cache (only for same request method+host+uri)
@@ -193,7 +197,21 @@ func (hc *httpCache) initFromStore() (err error) {
 	if err != nil {
 		return
 	}
-	return hc.FromBytes(data)
+	err = hc.FromBytes(data)
+	// 只有解析成功且是hit或hit for pass（有过期时间，hit还需要有响应数据）的数据才可用，
+	// 否则（数据损坏或非法）恢复为初始状态，当作无缓存处理
+	valid := err == nil && hc.expiredAt != 0 &&
+		(hc.status == StatusHitForPass || (hc.status == StatusHit && hc.response != nil))
+	if !valid {
+		hc.status = StatusUnknown
+		hc.response = nil
+		hc.createdAt = 0
+		hc.expiredAt = 0
+		if err == nil {
+			err = errInvalidStoreData
+		}
+	}
+	return
 }
 
 // saveToStore save cache to store
